@@ -97,14 +97,14 @@ def rule_not_started(ctx, tab, rule="R3"):
                    "every other row is taken only when time - delay >= 0", tab["body"]["span"], what="started-test")
 
 
-def rule_duration_formula(ctx, rule="R4", tab=None):
+def rule_duration_formula(ctx, rule="R4", tab=None, adt=TT.TS):
     """end test of get_position agrees with get_duration; INFINITY iff Repeat::Infinite"""
     F = ctx.facts
     tab = tab or TT.build(ctx)
     roles = tab["roles"]
     S, D = tab["S"], tab["D"]
     delay = TT.fld(roles["delay"])
-    gd = F.one(crate="mina_core", name="get_duration", impl_self_adt=TT.TS)
+    gd = F.one(name="get_duration", impl_self_adt=adt)
     eng = pse.Engine(F)
     ps = eng.run(gd)
     ctx.count_paths(ps, gd)
@@ -275,3 +275,14 @@ def check(ctx):
     ctx.notes.append("not decided: linear rise and exact periodicity as numeric relations over all f32 times")
     ctx.assumptions += ["cycle duration D finite and > 0, time finite (valid configuration)",
                         "f32 division, remainder, subtraction are correctly rounded and monotone"]
+
+
+CTL_TS = "witness_controls::timescale::CtlTimeScale"
+
+
+def controls(ctx, F):
+    tab = TT.build(ctx, F, adt=CTL_TS)
+    rule_mirror(ctx, tab)
+    rule_duration_formula(ctx, "R4", tab, adt=CTL_TS)
+    return [("R2", "fold-threshold", "time scale copy that folds the reversing cycle at 0.4"),
+            ("R4", "end-threshold-differs-from-duration", "time scale copy whose reported duration ignores the delay")]
